@@ -400,3 +400,24 @@ func asReader(r io.Reader) *bytes.Reader { br, _ := r.(*bytes.Reader); return br
 //@   ensures[forward] consumed(r) >= old(consumed(r))
 //@   sweep
 //@   alloc-bound 256*remaining(r) + 4096
+
+// ---- C12 / C14: the memory sizer. What a module may use (minimum, maximum) follows from its declared
+// limits and the configured page limit alone; WithMemoryCapacityFromMax only chooses the initial capacity.
+func sizedMax(maxPages *uint32, limit uint32) uint32 {
+	switch {
+	case maxPages == nil:
+		return limit
+	case *maxPages > wasm.MemoryLimitPages: // invalid: reported later
+		return *maxPages
+	case *maxPages > limit:
+		return limit
+	}
+	return *maxPages
+}
+
+//@ prop C12 C14
+//@ closure 1 newMemorySizer(memoryLimitPages uint32, memoryCapacityFromMax bool) memorySizer
+//@   vars (memoryLimitPages uint32, memoryCapacityFromMax bool, minPages uint32, maxPages *uint32, min uint32, capacity uint32, max uint32)
+//@   ensures[limits-do-not-depend-on-the-capacity-setting] min == minPages && max == sizedMax(maxPages, memoryLimitPages)
+//@   ensures[capacity-is-min-or-max] capacity == minPages || (memoryCapacityFromMax && capacity == max)
+//@   ensures[capacity-from-max-preallocates] memoryCapacityFromMax && (maxPages == nil || *maxPages <= wasm.MemoryLimitPages) ==> capacity == max
